@@ -346,8 +346,13 @@ func (seg *Segmenter) splitByScript() {
 				continue
 			} else if currentInput.Script == language.Common {
 				// update the pair stack to attribute the resolved script
+				// to the delimiters still waiting for it (the ones opened in a
+				// previous bidi run may already have a script, which must be kept
+				// for their closing counterpart)
 				for i := range seg.delimStack {
-					seg.delimStack[i].script = rScript
+					if seg.delimStack[i].script == language.Common {
+						seg.delimStack[i].script = rScript
+					}
 				}
 				// set the resolved script to the current run,
 				// but do NOT create a new run
